@@ -20,7 +20,7 @@ from sexp import Sym
 PROP = "C18"
 READY = True
 DRIVER = "dm_stores"
-LEAN_MODULES = ["DaskModel.Props.C18", "DaskModel.Props.C18b"]
+LEAN_MODULES = ["DaskModel.Props.C18", "DaskModel.Props.C18b", "DaskModel.Props.C18c"]
 TABLES = ["ByteTables"]
 CASE_TIMEOUT_S = 10
 N0 = 1125894277343089729          # first n whose rendering has 11 characters (Lean: format_len_partial / _refuted)
@@ -39,8 +39,11 @@ LEVEL_TEXT = (
     "binary64 product (the casing quantifier is discharged by proving that the lookup lower-cases first; the table "
     "rows are quantified, not enumerated). natural_sort_key_shape / splitDigits_concat: odd number of parts, the "
     "pieces spell the input. parse_bytes, parse_timedelta and natural_sort_key are diffed exactly against the real "
-    "functions on every run. NOT proved, validated by oracle on the real code only: the parse(format(n)) round-trip "
-    "bound, and key_split (totality, documented examples; no Lean model).")
+    "functions on every run. parse_format_roundtrip: for every n < 2**60 in a band k, parse_bytes(format_bytes(n)) = v "
+    "with |v - n| <= k/200 + 321 (half a unit of the second decimal plus all binary64 roundings on the way: "
+    "int->float, n/k, '%.2f', float('ddd.dd') [ratToDy_spec: correctly rounded, 2^52 <= mantissa <= 2^53], the "
+    "product [mulR_floor_pow2: exact], int()); parse_format_plain: exact below the first band. key_split is modelled "
+    "and diffed (no theorem beyond totality by construction).")
 LEVEL_NOTE = ("Trusted: Lean kernel + standard axioms; CPython's float formatting/parsing being correctly rounded "
               "(validated by exact string comparison against the integer model on every run); the extractor; the "
               "correspondence harness. Only ASCII input strings; float literal syntax limited to "
